@@ -1,4 +1,5 @@
 """C06 — unique-id() is unique and random() stays in range."""
+import os
 import re
 from fractions import Fraction
 from tools import vlib
@@ -15,7 +16,10 @@ RULE = ("uid cases = (threads 1..16, compilations per thread, unique-id() calls 
         "'fresh' uid cases run in a new process so that the first id is compared with the pid-derived initial counter; "
         "rand cases = one limit each (log-uniform integers 1..2^53, powers of two +-1, 1, non-positive, non-integer, "
         "near-integers on both sides of the tolerances, units, non-numbers, NaN/infinity, huge, null/no argument), 2-20 "
-        "draws per limit alternating math.random / random; non-trivial = ids or numbers were returned")
+        "draws per limit alternating math.random / random; rand-seeded cases = fastrand's thread-local generator put "
+        "into extreme states (next 64-bit word 0 in two ways, the near-maximal unit draw of 2^22 searched states, random "
+        "seeds) before ONE math.random(limit) / math.random(), compared with the model fed the very draws a clone of "
+        "the generator makes; non-trivial = ids or numbers were returned")
 TRUSTED = ["std::sync::Mutex atomicity (a concurrent run is some total order of lock acquisitions) — model parameter",
            "fastrand contract (i64(0..b) in [0,b), f64() in [0,1)) — model parameter, sampled by the rand cases",
            "harness extraction of ids/values from the compiled CSS (ops/c06.rs) and its sort/duplicate count",
@@ -82,6 +86,18 @@ def gen(tier, rng, boost=1):
     for _ in range((12 if quick else 60) * boost):
         t = rng.choice([1, 2, 3, 4, 8, 16, rng.randint(1, 16)])
         yield Case(uid_line(t, rng.randint(1, 400), rng.randint(1, 8), rng.choice([0, 1, 2, 3, 4, 9])), "uid-random")
+    # ---- random with the generator put into extreme states (zero word, zero via xor constant, near-max) ----
+    lims = [1, 2, 3, 7, 8, 10, 100, 255, 256, 9999, 2 ** 31, 2 ** 32 + 1, 2 ** 53 - 1, 2 ** 53]
+    seeded = []
+    for st in ("zero0", "zero1", "max"):
+        seeded.append(Case(f"randseed\t{st}\t\t0\tnull", "rand-seeded-unit", {"state": st}))
+        for v in lims + [rng.randint(1, 2 ** 53) for _ in range(6 if quick else 60)]:
+            seeded.append(Case(f"randseed\t{st}\t{hx(str(v))}\t{v}\tnum:{v}:1", "rand-seeded-int", {"state": st}))
+    for _ in range((40 if quick else 400) * boost):
+        v = rng.choice(lims + [int(2 ** rng.uniform(0, 53))])
+        seeded.append(Case(f"randseed\tseed:{rng.getrandbits(64)}\t{hx(str(v))}\t{v}\tnum:{v}:1", "rand-seeded-int"))
+    _SEEDED.extend(c.lines[0] for c in seeded)
+    yield from seeded
     # ---- random ----
     n_lim = (10 ** 4 if quick else 10 ** 5) * boost
     for v in (1, 2, 3, 10, 255, 2 ** 31 - 1, 2 ** 31, 2 ** 32 + 1, 2 ** 52, 2 ** 53 - 1, 2 ** 53):
@@ -186,6 +202,37 @@ def _model(lines):
     return vlib.run_model(DRIVER, lines, set())
 
 
+_SEEDED = []          # the randseed lines generated in this run
+_SEEDED_MODEL = {}    # (term, f bits, i) -> model answer, filled by one batched driver call
+
+
+def _draw_line(term, fbits, i):
+    import struct
+    fd = Fraction(struct.unpack("<d", struct.pack("<Q", int(fbits)))[0])
+    return f"randdraw\t{term}\t{fd.numerator}\t{fd.denominator}\t{i or '0'}"
+
+
+def _seeded_model(term, fbits, i):
+    """the model fed the draws the generator made.  The draws depend on the seeded state only, so they are
+    obtained for all generated cases by one extra harness run and one batched driver run (the Lean driver
+    flushes its answers only at the end, it cannot be used interactively)."""
+    key = (term, fbits, i)
+    if key not in _SEEDED_MODEL and _SEEDED:
+        outs = vlib.run_impl(_SEEDED, CASE_TIMEOUT)
+        keys = []
+        for l, o in zip(_SEEDED, outs):
+            d = kv(o)
+            if "f" in d:
+                keys.append((l.split("\t")[4], d["f"], d.get("i", "")))
+        keys = sorted(set(keys))
+        for k, m in zip(keys, _model([_draw_line(*k) for k in keys])):
+            _SEEDED_MODEL[k] = m
+        del _SEEDED[:]
+    if key not in _SEEDED_MODEL:
+        _SEEDED_MODEL[key] = _model([_draw_line(*key)])[0]
+    return _SEEDED_MODEL[key]
+
+
 def judge_uid(case, impl, asis):
     if not impl.startswith("pid="):
         return Verdict(False, "crash: " + impl[:80] if impl.startswith(("panic:", "abort:")) else None)
@@ -236,10 +283,40 @@ def judge_uid(case, impl, asis):
     return Verdict(not notes, fails)
 
 
+def judge_seeded(case, impl, asis):
+    """generator in a chosen state: oracle on the value; correspondence = the model fed the very draws"""
+    f = case.lines[0].split("\t")
+    term = f[4]
+    if impl == "noseed":
+        return Verdict(False, None)       # this fastrand version cannot be put into that state: pipeline problem
+    parts = impl.split("\t")
+    res, d = parts[0], kv(impl)
+    why = rand_oracle(term, res)
+    if not res.startswith("ok:"):
+        return Verdict(asis.startswith("err:"), why)
+    m = _seeded_model(term, d["f"], d.get("i", ""))
+    try:
+        v = parse_vals(res)[0]
+    except (ValueError, ZeroDivisionError, IndexError):
+        return Verdict(False, "unparsable number in " + res[:60])
+    if m.startswith("int:"):
+        corr = v == int(m[4:])
+    elif m.startswith("unit:"):
+        a, b = m[5:].split("/")
+        corr = abs(v - Fraction(int(a), int(b))) < Fraction(1, 10 ** 15)
+    else:
+        corr = False
+    if not corr:
+        case.note["corr"] = f"model fed the same draws gives {m}, implementation {res}"
+    return Verdict(corr, why)
+
+
 def judge(case, impl, asis, spec):
     f = case.lines[0].split("\t")
     if f[0] == "uid":
         return judge_uid(case, impl, asis)
+    if f[0] == "randseed":
+        return judge_seeded(case, impl, asis)
     term = f[3]
     why = rand_oracle(term, impl)
     if impl.startswith("err:"):
@@ -267,6 +344,47 @@ def nontrivial(case, impl, spec):
     if impl.startswith("pid="):
         return int(kv(impl)["n"]) > 0
     return impl.startswith("ok:")
+
+
+# ---------------------------------------------------------------------------------------------
+# T3: source shape of `random` (what ties `random_int_range`'s generator contract to the code)
+ACCEPTED_RANDOM_BODIES = [
+    'match s.get_opt_map(name!(limit), check::positive_int)? { None => Ok(Value::scalar(fastrand::f64())), '
+    'Some(bound) => Ok(Value::scalar(fastrand::i64(0..bound) + 1)), }',
+]
+ACCEPTED_UID_BODIES = [
+    'static CALL_ID: LazyLock<Mutex<u64>> = LazyLock::new(|| { Mutex::new(u64::from(std::process::id()) * 0xa01) }); '
+    'let v = { let mut v = CALL_ID.lock().unwrap(); *v += 1; *v }; Ok(format!("x{v:x}").into())',
+]
+EXTRA_OBLIGATIONS = ["random_shape (T3: body of math.rs `random` is the modelled draw `fastrand::i64(0..bound) + 1` / `fastrand::f64()`)",
+                     "unique_id_shape (T3: body of string.rs `unique_id` is the modelled lock / increment / format)"]
+
+
+def _def_body(path, head):
+    """normalised text of the closure body of `def!(f, <head>, |..| { BODY });`"""
+    src = open(os.path.join(vlib.REPO, path), encoding="utf-8").read()
+    src = re.sub(r"//[^\n]*", "", src)
+    m = re.search(r"def!\(\s*f\s*,\s*" + head + r"\s*,\s*\|\w+\|\s*\{", src)
+    if not m:
+        return None
+    depth, i = 1, m.end()
+    while i < len(src) and depth:
+        depth += {"{": 1, "}": -1}.get(src[i], 0)
+        i += 1
+    return re.sub(r"\s+", " ", src[m.end():i - 1]).strip()
+
+
+def static_checks(ctx):
+    probs = []
+    body = _def_body("rsass/src/sass/functions/math.rs", r"random\(limit = b\"null\"\)")
+    if body not in ACCEPTED_RANDOM_BODIES:
+        probs.append("random_shape: the body of `random` in sass/functions/math.rs is not the modelled one "
+                     "(`fastrand::i64(0..bound) + 1` / `fastrand::f64()`): " + repr(body)[:300])
+    body = _def_body("rsass/src/sass/functions/string.rs", r"unique_id\(\)")
+    if body not in ACCEPTED_UID_BODIES:
+        probs.append("unique_id_shape: the body of `unique_id` in sass/functions/string.rs is not the modelled one: "
+                     + repr(body)[:300])
+    return probs
 
 
 LEVEL_TEXT = ("Proof (Lean 4) over a model of the CALL_ID counter as the code has it (initial value pid*0xa01, +1 under the "
